@@ -11,17 +11,17 @@
 From PV Require Export Base.Bytes Spec.PrimSpec.
 From Coq Require Export String.
 
-Record leb : Type := mkleb { lv : Z; lb : list Z }.
+Record lebval : Type := mkleb { lv : Z; lb : list Z }.
 
 (* executable validity of a chosen encoding (sound w.r.t. uleb_valid / sleb_valid:
    Proofs/PrimProofs.uleb_spec_sound) *)
-Definition wf_uleb (l : leb) : bool :=
+Definition wf_uleb (l : lebval) : bool :=
   all_bytes (lb l) &&
   match uleb_spec (lb l) with
   | Some (v, []) => v =? lv l
   | _ => false
   end.
-Definition wf_sleb (l : leb) : bool :=
+Definition wf_sleb (l : lebval) : bool :=
   all_bytes (lb l) &&
   match sleb_spec (lb l) with
   | Some (v, []) => v =? lv l
@@ -29,13 +29,13 @@ Definition wf_sleb (l : leb) : bool :=
   end.
 
 (* a DW_FORM_block / exprloc operand: ULEB128 length, then that many bytes *)
-Definition wf_block (len : leb) (e : list Z) : bool :=
+Definition wf_block (len : lebval) (e : list Z) : bool :=
   wf_uleb len && (lv len =? zlen e) && all_bytes e.
 
 Inductive instr : Type :=
 (* high 2 bits of the opcode byte carry the instruction, low 6 bits the first operand *)
 | I_advance_loc (delta : Z)                        (* 0x1 : delta *)
-| I_offset (reg : Z) (off : leb)                   (* 0x2 : register ; ULEB128 offset *)
+| I_offset (reg : Z) (off : lebval)                   (* 0x2 : register ; ULEB128 offset *)
 | I_restore (reg : Z)                              (* 0x3 : register *)
 (* high 2 bits zero: the low 6 bits are the opcode *)
 | I_nop                                            (* 0x00 *)
@@ -43,27 +43,27 @@ Inductive instr : Type :=
 | I_advance_loc1 (delta : Z)                       (* 0x02 1-byte delta *)
 | I_advance_loc2 (delta : Z)                       (* 0x03 2-byte delta *)
 | I_advance_loc4 (delta : Z)                       (* 0x04 4-byte delta *)
-| I_offset_extended (reg off : leb)                (* 0x05 ULEB128 register, ULEB128 offset *)
-| I_restore_extended (reg : leb)                   (* 0x06 ULEB128 register *)
-| I_undefined (reg : leb)                          (* 0x07 ULEB128 register *)
-| I_same_value (reg : leb)                         (* 0x08 ULEB128 register *)
-| I_register (reg reg2 : leb)                      (* 0x09 ULEB128 register, ULEB128 register *)
+| I_offset_extended (reg off : lebval)                (* 0x05 ULEB128 register, ULEB128 offset *)
+| I_restore_extended (reg : lebval)                   (* 0x06 ULEB128 register *)
+| I_undefined (reg : lebval)                          (* 0x07 ULEB128 register *)
+| I_same_value (reg : lebval)                         (* 0x08 ULEB128 register *)
+| I_register (reg reg2 : lebval)                      (* 0x09 ULEB128 register, ULEB128 register *)
 | I_remember_state                                 (* 0x0a *)
 | I_restore_state                                  (* 0x0b *)
-| I_def_cfa (reg off : leb)                        (* 0x0c ULEB128 register, ULEB128 offset *)
-| I_def_cfa_register (reg : leb)                   (* 0x0d ULEB128 register *)
-| I_def_cfa_offset (off : leb)                     (* 0x0e ULEB128 offset *)
-| I_def_cfa_expression (len : leb) (e : list Z)    (* 0x0f BLOCK *)
-| I_expression (reg len : leb) (e : list Z)        (* 0x10 ULEB128 register, BLOCK *)
-| I_offset_extended_sf (reg off : leb)             (* 0x11 ULEB128 register, SLEB128 offset *)
-| I_def_cfa_sf (reg off : leb)                     (* 0x12 ULEB128 register, SLEB128 offset *)
-| I_def_cfa_offset_sf (off : leb)                  (* 0x13 SLEB128 offset *)
-| I_val_offset (reg off : leb)                     (* 0x14 ULEB128, ULEB128 *)
-| I_val_offset_sf (reg off : leb)                  (* 0x15 ULEB128, SLEB128 *)
-| I_val_expression (reg len : leb) (e : list Z)    (* 0x16 ULEB128, BLOCK *)
+| I_def_cfa (reg off : lebval)                        (* 0x0c ULEB128 register, ULEB128 offset *)
+| I_def_cfa_register (reg : lebval)                   (* 0x0d ULEB128 register *)
+| I_def_cfa_offset (off : lebval)                     (* 0x0e ULEB128 offset *)
+| I_def_cfa_expression (len : lebval) (e : list Z)    (* 0x0f BLOCK *)
+| I_expression (reg len : lebval) (e : list Z)        (* 0x10 ULEB128 register, BLOCK *)
+| I_offset_extended_sf (reg off : lebval)             (* 0x11 ULEB128 register, SLEB128 offset *)
+| I_def_cfa_sf (reg off : lebval)                     (* 0x12 ULEB128 register, SLEB128 offset *)
+| I_def_cfa_offset_sf (off : lebval)                  (* 0x13 SLEB128 offset *)
+| I_val_offset (reg off : lebval)                     (* 0x14 ULEB128, ULEB128 *)
+| I_val_offset_sf (reg off : lebval)                  (* 0x15 ULEB128, SLEB128 *)
+| I_val_expression (reg len : lebval) (e : list Z)    (* 0x16 ULEB128, BLOCK *)
 (* vendor extensions (DW_CFA_lo_user 0x1c .. DW_CFA_hi_user 0x3f) *)
 | I_GNU_window_save                                (* 0x2d, also DW_CFA_AARCH64_negate_ra_state *)
-| I_GNU_args_size (n : leb).                       (* 0x2e ULEB128 *)
+| I_GNU_args_size (n : lebval).                       (* 0x2e ULEB128 *)
 
 (* Table 7.29 with the names, for the comparison with the library's constants *)
 Open Scope string_scope.
